@@ -14,13 +14,18 @@ STRS = ["a", "b", "ab", "", "é", "B", "zz"]
 def maybe(rng, p, v):
     return None if rng.random() < p else v
 
-def gen_tables(rng, n, m, null_p=0.2, kr=6, wide_str=False):
+# c5 values around the 2^20-key chunk boundaries of the dense direct-address GROUP BY (one presence-bitmap chunk = 16384 words)
+DENSE_WIDE = [0, 1, 9, 1048575, 1048576, 1048577, 2000000, 2097151, 2097152, 2097153, 3000000]
+
+def gen_tables(rng, n, m, null_p=0.2, kr=6, wide_str=False, dense_wide=False):
     def s():
         return rng.choice(STRS) if not wide_str or rng.random() < 0.5 else f"s{rng.randint(0, 40)}"
+    def c5():
+        return rng.choice(DENSE_WIDE) if dense_wide else rng.randint(0, 9)
     ta = [[maybe(rng, null_p, rng.randint(-2, kr)), maybe(rng, null_p, rng.randint(0, 5)),
            maybe(rng, null_p, ("q", Fraction(rng.choice([0, 1, 3, 5, -3, 10, 7]), rng.choice([1, 2, 4])))),
            maybe(rng, null_p, s()), maybe(rng, null_p, ("d", rng.choice([-1, 0, 1, 365, 10957, 400, 20]))),
-           rng.randint(0, 9)] for _ in range(n)]
+           c5()] for _ in range(n)]
     if ta and rng.random() < 0.5:
         for _ in range(rng.randint(1, 3)):
             ta.insert(rng.randint(0, len(ta)), list(rng.choice(ta)))
@@ -49,8 +54,9 @@ def gen_statement(rng, ta, tb, kind):
     if kind == "project":
         src = A if rng.random() < 0.5 else ("filter", A, atom(rng, TA))
         return ("project", src, [col(3), ("arith", "AAdd", col(0), col(5)), col(2), ("arith", "AMul", col(1), lit(2)), col(4)])
-    if kind in ("join", "join-outer"):
-        jt = rng.choice(["JInner", "JInner", "JLeft"]) if kind == "join" else rng.choice(["JRight", "JFull", "JLeft"])
+    if kind in ("join", "join-outer", "join-right", "join-full"):
+        jt = (rng.choice(["JInner", "JInner", "JLeft"]) if kind == "join" else "JRight" if kind == "join-right" else
+              "JFull" if kind == "join-full" else rng.choice(["JRight", "JFull", "JLeft"]))
         k = rng.random()
         if k < 0.55:
             on = ("cmp", "CEq", col(0), col(wa + 0))                          # i64 = i32
